@@ -9,6 +9,8 @@ From Frugal Require Import Bytes Wire Skip Values Desc Spec Encode Decode Checks
 From Frugal.gen Require Import Params.
 From Frugal.proofs Require Import GenAccess DescMapProofs ConcProofs.
 From Frugal.props Require Import Examples.
+From Frugal Require Import DisciplineChecks.
+From Frugal.proofs Require Import GenPools.
 Import ListNotations.
 
 (* for any number of goroutines, any keys (several may first-use the same type) and ANY schedule: *)
@@ -52,3 +54,8 @@ Proof. vm_compute. reflexivity. Qed.
    for what the translator read from the sources of this run *)
 Theorem C08_side_conditions : access_ok = true.
 Proof. exact access_ok_holds. Qed.
+
+(* structural facts about the Go source which the hand-written model builds in (DisciplineChecks.v),
+   read from the source by the translator and re-proved on every run *)
+Theorem C08_model_assumptions : pools_ok = true.
+Proof. exact pools_ok_holds. Qed.
